@@ -75,6 +75,7 @@ def configs(tier: str, seed: int):
     add("gen", "callable", True, depth=4 if th else 3)
     add("gen", "param", True)
     add("svf", "callable", True)
+    add("seq2", "buffer", True)
     if th:
         # other flag / orientation / parameter kind
         add("ddf", "param", False, direction="perm")
@@ -88,6 +89,7 @@ def configs(tier: str, seed: int):
         add("seq", "buffer", False)
         add("gen", "buffer", False)
         add("gen", "callable", False, direction="id")
+        add("seq2", "param", False)
         # smooth (non-affine) fields: re-gridding judged with the interpolation bound
         for cls in ("ddf", "svf", "ffd", "svffd"):
             add(cls, "param", True, family="smooth")
@@ -217,7 +219,7 @@ class Fixtures:
         if mtype in ts.SPLINE_TYPES:
             return ts.spline_params(self.F[k], rg, self.stride)
         if mtype == "trans":
-            return ts.linear_params(self.L[k] if self.cfg["cls"] in ("seq", "gen") else self.F[k], rg, "trans")
+            return ts.linear_params(self.L[k] if self.cfg["cls"] in ("seq", "seq2", "gen") else self.F[k], rg, "trans")
         if mtype == "hom":
             return ts.linear_params(self.L[k], rg, "hom")
         if mtype == "scale":
@@ -249,6 +251,7 @@ MEMBERS = {
     "svffd": [("self", "svffd")],
     "lin": [("self", "trans")],
     "seq": [("0", "ddf"), ("1", "hom")],
+    "seq2": [("0", "svf"), ("1", "svf")],  # two stationary velocity members
     "gen": [("nonrigid", "svf"), ("scaling", "scale"), ("translation", "trans")],  # "Affine o SVF", affine "TS"
 }
 GEN_STEPS = 6  # TransformConfig default
@@ -357,8 +360,10 @@ class World:
 
         mems = []
         for name, mt in MEMBERS[cls]:
-            a = None if kind == "callable" else fx.params(mt, 1, "g0")
-            mems.append(Mem(name, mt, Box(a) if a is not None else None, "g0", False, kind))
+            m = Mem(name, mt, None, "g0", False, kind)
+            a = None if kind == "callable" else fx.params(mt, self.fidx(m, 1), "g0")
+            m.box = Box(a) if a is not None else None
+            mems.append(m)
         single = {"ddf": S.DisplacementFieldTransform, "svf": S.StationaryVelocityFieldTransform,
                   "ffd": S.FreeFormDeformation, "svffd": S.StationaryVelocityFreeFormDeformation, "lin": S.Translation}
         if cls in single:
@@ -369,6 +374,9 @@ class World:
             ddf = S.DisplacementFieldTransform(G0, params=arg(mems[0].box.a))
             hom = S.HomogeneousTransform(G0, params=arg(mems[1].box.a))
             t = S.SequentialTransform(G0, ddf, hom)
+        elif cls == "seq2":
+            t = S.SequentialTransform(G0, S.StationaryVelocityFieldTransform(G0, params=arg(mems[0].box.a)),
+                                      S.StationaryVelocityFieldTransform(G0, params=arg(mems[1].box.a)))
         elif cls == "gen":
             config = TransformConfig(transform="Affine o SVF", affine_model="TS")
             if kind == "callable":
@@ -389,6 +397,11 @@ class World:
             r.curv = max(fx.F[k].curvature() for k in (0, 1, 2))
             r.acc = max(fx.set_acc(mems[0].type, k, "g0") for k in (0, 1, 2))
         self.rec["t"] = r
+
+    def fidx(self, m, k):
+        if self.cls == "seq2" and m.name == "1" and k in (0, 1, 2):
+            return {0: 1, 1: 2, 2: 0}[k]
+        return k
 
     def member_obj(self, o, name):
         return o if name == "self" else o[name]
@@ -460,6 +473,9 @@ def core_alphabet(cfg):
     if kind != "callable":
         A(["set_data", 2])
         A(["edit", None])
+        A(["edit", "data.add_"])
+        if kind == "param":
+            A(["edit", "sgd"])
         A(["grid_", "gA"])
         A(["grid_", "gAx" if cls in ("ffd", "svffd") else "gB"])
         A(["condition_", "c1"])
@@ -471,7 +487,7 @@ def core_alphabet(cfg):
     A(["update", "t"])
     A(["clear", None])
     if cls in ("svf", "svffd", "lin"):
-        A(["inverse", True])
+        A(["inverse", "TF"])
         A(["call", "inv"])
     if kind == "callable":
         A(["copy_cond", "c2"])
@@ -495,6 +511,12 @@ def alphabet(cfg):
         A(["set_data", 1])
         A(["set_data", 2])
         A(["edit", None])
+        # in-place edits written through `.data` (do not bump the version counter of the parameter) and a real optimiser step
+        A(["edit", "data.add_"])
+        A(["edit", "data.mul_"])
+        A(["edit", "data.copy_"])
+        if kind == "param":
+            A(["edit", "sgd"])
     if cls in ("ddf", "svf"):
         grids = ["gA", "gB", "gC", "g0"] if tensor_kind else ["gB", "g0"]
     elif cls in ("ffd", "svffd"):
@@ -512,9 +534,9 @@ def alphabet(cfg):
     A(["reset", None])
     A(["update", "t"])
     A(["clear", None])
-    if cls in ("svf", "svffd", "lin", "gen"):
-        A(["inverse", False])
-        A(["inverse", True])
+    if cls in INVERTIBLE:
+        for form in INVERSE_FORMS:
+            A(["inverse", form])
     if single:
         A(["copy_data", 2])
     if grids:
@@ -526,15 +548,23 @@ def alphabet(cfg):
         A(["link", None])
         A(["unlink", None])
     for who in ("t", "inv", "cp"):
-        if who == "inv" and cls not in ("svf", "svffd", "lin", "gen"):
+        if who == "inv" and cls not in INVERTIBLE:
             continue
         A(["call", who])
         A(["disp", who])
     A(["dispg", "t"])
+    if cls in INVERTIBLE:
+        # an inverse made with update_buffers=True is documented to be usable without update(): observed right away also
+        # through disp(g') and forward() (no pre-forward hook)
+        A(["dispg", "inv"])
+        A(["fwd", "inv"])
     return ops
 
 
-OBSERVERS = ("call", "disp", "dispg")
+OBSERVERS = ("call", "disp", "dispg", "fwd")
+INVERTIBLE = ("svf", "svffd", "lin", "gen", "seq2")
+# make-inverse forms: link / update_buffers flags ("TF" = link=True, update_buffers=False), "inv" = the .inv property
+INVERSE_FORMS = ("FF", "TF", "FT", "TT", "inv")
 CREATORS = ("inverse", "copy_data", "copy_grid", "copy_cond", "link", "unlink")
 
 
@@ -543,7 +573,9 @@ def op_form(op):
     if name in ("grid_", "copy_grid", "condition_", "copy_cond"):
         return f"{name}({arg})"
     if name == "inverse":
-        return f"inverse(link={'T' if arg else 'F'})"
+        return ".inv" if arg == "inv" else f"inverse(link={arg[0]},update_buffers={arg[1]})"
+    if name == "edit":
+        return "edit" if arg is None else f"edit({arg})"
     if name in OBSERVERS or name == "update":
         return f"{name}@{arg}"
     return name
@@ -694,7 +726,7 @@ class Stepper:
         sig = f"C09/{W.cls}-{W.kind}/{op_form(op)}/{problem}"
         if after:
             # observers: name the operation that defined what is observed (never values)
-            r = W.rec.get(op[1]) if op[0] in ("disp", "dispg") else None
+            r = W.rec.get(op[1]) if op[0] in ("disp", "dispg", "fwd") else None
             sig += f"/since={r.since}" if r is not None else f"/after={W.last_mut}"
         self.problems.append((sig, detail))
 
@@ -826,7 +858,7 @@ class Stepper:
     def composite_touch(self, who):
         """Composite copies share member modules: evaluating one object refreshes buffers of the others."""
         W = self.W
-        if W.cls in ("seq", "gen"):
+        if W.cls in ("seq", "seq2", "gen"):
             for w in ("t", "inv", "cp"):
                 if w != who and W.rec[w] is not None:
                     W.rec[w].disp_ok = False
@@ -836,7 +868,7 @@ class Stepper:
         """Evaluation-relevant configuration of an object that is not a tensor: sign flags and integrator settings."""
         out = []
         objs = [("self", o)]
-        if self.W.cls in ("seq", "gen"):
+        if self.W.cls in ("seq", "seq2", "gen"):
             st, it = guarded(lambda: list(o.named_transforms()))
             if st == "ok":
                 objs += it
@@ -882,7 +914,7 @@ class Stepper:
 
         if name == "set_data":
             for m in rt.mems:
-                a = fx.params(m.type, arg, m.grid)
+                a = fx.params(m.type, W.fidx(m, arg), m.grid)
                 self.call_impl(op, W.member_obj(t, m.name).data_, torch.tensor(a))
                 m.box = Box(a)
                 m.pk = kind
@@ -897,15 +929,47 @@ class Stepper:
 
         if name == "edit":
             m = rt.mems[0]
+            mo = W.member_obj(t, m.name)
             e = (fx.params(m.type, "E", m.grid) * np.float32(0.5)).astype(np.float32)
+            if arg is None:  # optimiser style under no_grad on the parameter itself
 
-            def do():
-                with torch.no_grad():
-                    W.member_obj(t, m.name).data().add_(torch.tensor(e))
+                def do():
+                    with torch.no_grad():
+                        mo.data().add_(torch.tensor(e))
 
+                new = m.box.a + e
+            elif arg == "data.add_":  # manual SGD idiom p.data.add_(...)
+                do = lambda: mo.data().data.add_(torch.tensor(e))
+                new = m.box.a + e
+            elif arg == "data.mul_":
+                do = lambda: mo.data().data.mul_(0.5)
+                new = m.box.a * np.float32(0.5)
+            elif arg == "data.copy_":
+                v = fx.params(m.type, W.fidx(m, 2), m.grid)
+                do = lambda: mo.data().data.copy_(torch.tensor(v))
+                new = v
+            elif arg == "sgd":  # loss = <params, e>, one torch.optim.SGD step with lr = 0.5: params -= 0.5 e
+
+                def do():
+                    prm = mo.data()
+                    opt = torch.optim.SGD([prm], lr=0.5)
+                    opt.zero_grad()
+                    loss = (prm * torch.tensor(e)).sum()
+                    loss.backward()
+                    opt.step()
+                    prm.grad = None
+
+                new = m.box.a - np.float32(0.5) * e
+            else:
+                raise KeyError(arg)
             self.call_impl(op, do)
-            m.box.a += e  # in place: every record sharing the tensor follows
-            rt.curv += 0.0
+            m.box.a[...] = new  # in place: every record sharing the tensor follows
+            if arg == "data.copy_":
+                rt.valid = ts.hull_box(fx.base, fx.G[m.grid])
+                rt.curv = fx.F[2].curvature()
+                rt.acc = fx.set_acc(m.type, 2, m.grid)
+            elif arg == "data.mul_":
+                rt.curv, rt.acc = 0.5 * rt.curv, 0.5 * rt.acc
             rt.disp_ok = False
             self.touch_followers()
             self.category = "mutate"
@@ -988,7 +1052,12 @@ class Stepper:
             return
 
         if name == "inverse":
-            inv = self.call_impl(op, t.inverse, link=bool(arg))
+            if arg == "inv":
+                link, ub = True, True
+                inv = self.call_impl(op, lambda: t.inv)
+            else:
+                link, ub = arg[0] == "T", arg[1] == "T"
+                inv = self.call_impl(op, t.inverse, link=link, update_buffers=ub)
             if not isinstance(inv, type(t)):
                 self.bad(op, "type", f"inverse() returned {type(inv).__name__}")
                 raise Stop()
@@ -996,11 +1065,15 @@ class Stepper:
             for m in mems:
                 m.invert = not m.invert
             r = Rec(cls, kind, mems, rt.grid, rt.cond)
-            r.mode = "linked" if arg else "shared"
+            r.mode = "linked" if link else "shared"
             r.valid, r.acc, r.curv = rt.valid, rt.acc, rt.curv
             r.disp_ok = False
             r.dead = rt.dead
             W.obj["inv"], W.rec["inv"] = inv, r
+            if ub and rt.disp_ok and rt.p_fresh:
+                # update_buffers=True: "usable without update()", provided the buffers of the original it is derived from
+                # are themselves defined (not after an in-place edit / unrefreshed prediction of the original)
+                self.define(r)
             self.check_receiver(op)
             self.category = "create"
             return
@@ -1071,7 +1144,7 @@ class Stepper:
             self.define(r)
             r.p_fresh = False
             W.obj["cp"], W.rec["cp"] = cp, r
-            if cls in ("seq", "gen"):
+            if cls in ("seq", "seq2", "gen"):
                 # composite.condition_ conditions the (shared) member modules: the original's members are re-conditioned
                 # too; the original composite's own conditioning (used by GenericSpatialTransform.update) must survive
                 self.composite_touch("cp")
@@ -1145,8 +1218,11 @@ class Stepper:
         o = W.obj[who]
         r = W.rec[who]
         acc = self.acc
-        if name == "call":
+        if name in ("call", "fwd"):
+            fwd = name == "fwd"
             members, rg, _ = W.eff(who)
+            if fwd and not r.disp_ok:
+                members, rg = None, "update-required-first"
             # probe coordinates are computed from the grid the record says the object holds
             frame_grid = fx.G[r.grid]
             c = ts.world_to_cube(frame_grid, fx.probes)
@@ -1155,14 +1231,17 @@ class Stepper:
                 # not judged; still executed (it refreshes buffers, which is part of the state)
                 if acc is not None:
                     acc.trans()
-                st, y = guarded(o, x)
-                self.undef(f"call@{who}:{rg}")
+                st, y = guarded(o.forward if fwd else o, x)
+                self.undef(f"{name}@{who}:{rg}")
                 if st == "raises":
                     raise Stop()
+                if fwd:
+                    return
                 W.upd[who] = True
             else:
-                y = self.call_impl(op, o, x)
-                W.upd[who] = True
+                y = self.call_impl(op, o.forward if fwd else o, x)
+                if not fwd:
+                    W.upd[who] = True
                 if not isinstance(y, torch.Tensor) or tuple(y.shape) != tuple(x.shape):
                     self.bad(op, "shape", f"call returned {type(y).__name__} {tuple(getattr(y, 'shape', ()))}", after=True)
                     raise Stop()
@@ -1174,19 +1253,21 @@ class Stepper:
                 ok = self.inside_hulls(members, xw, 0.0)
                 tol = W.tol_world(frame_grid) * (4 if vel else 1)
                 if acc is not None:
-                    acc.outcome("call", W.cls, W.kind, who, np.round(yw, 4).tobytes())
+                    acc.outcome(name, W.cls, W.kind, who, np.round(yw, 4).tobytes())
                 if ok.any():
                     err = np.abs(yw - ew)[ok]
                     if err.max() > tol:
                         i = int(np.argmax(np.abs(yw - ew).max(axis=1) * ok))
-                        self.bad(op, "mismatch", f"{who}(x) maps world {np.round(xw[i], 4).tolist()} to {np.round(yw[i], 5).tolist()}, current state denotes {np.round(ew[i], 5).tolist()} (err {err.max():.3e}, tol {tol:.1e})", after=True)
+                        self.bad(op, "mismatch", f"{who}{'.forward' if fwd else ''}(x) maps world {np.round(xw[i], 4).tolist()} to {np.round(yw[i], 5).tolist()}, current state denotes {np.round(ew[i], 5).tolist()} (err {err.max():.3e}, tol {tol:.1e})", after=True)
                         raise Stop()
+                    self.category = "call"
                     if acc is not None:
-                        acc.trace("call")
                         if np.abs(ew - xw)[ok].max() > 1e-3:
-                            acc.nontriv("call", W.cls, W.kind, who, h64(repr(r.describe())), repr(W.rec["t"].describe()) if r.mode in ("linked", "alias") else "")
+                            acc.nontriv(name, W.cls, W.kind, who, h64(repr(r.describe())), repr(W.rec["t"].describe()) if r.mode in ("linked", "alias") else "")
                 else:
                     self.undef("call:no-probe-in-valid-region")
+            if fwd:
+                return
             self.define(r)
             if who == "t":
                 r.p_fresh = True
@@ -1231,8 +1312,8 @@ class Stepper:
                 i = int(np.argmax(err.max(axis=1) * ok))
                 self.bad(op, "mismatch", f"{who}.disp({'g_other_size' if name == 'dispg' else ''}) at world {np.round(xw[i], 4).tolist()} is {np.round(dw[i], 5).tolist()}, current state denotes {np.round(ew[i], 5).tolist()} (err {err[ok].max():.3e}, tol {tol:.1e})", after=True)
                 raise Stop()
+            self.category = "disp"
             if acc is not None:
-                acc.trace("disp")
                 if np.abs(ew)[ok].max() > 1e-3:
                     acc.nontriv(name, W.cls, W.kind, who, h64(repr(r.describe())), repr(W.rec["t"].describe()) if r.mode in ("linked", "alias") else "")
         else:
